@@ -17,7 +17,7 @@ CHECKS = {
  "C07": dict(cat="exploration", tech="model-based runtime monitor with unique row ids + compactor trace events; thorough tier adds sanitizer overlays of the same workload (ASan), reports with risinglight frames are violations",
    text="Histories of insert/delete/compaction/reopen on tiny row-sets; after every step the table must equal a multiset model, DELETE counts must match, compaction passes (confirmed by the compactor's hook event) must not change any scan, primary-key tables must come back in key order.",
    note="Single session. Compaction driven by the engine's own timer on a paused clock. Key order observed through SELECT * (ordered merge scan).", ref="6 C07"),
- "C12": dict(cat="exploration", tech="metamorphic runtime monitor (q vs q ORDER BY K vs LIMIT/OFFSET slices) with an independent comparator",
+ "C12": dict(cat="exploration", tech="metamorphic runtime monitor (q vs q ORDER BY K vs LIMIT/OFFSET slices; ORDER BY above joins of sorted inputs: sortedness + permutation) with an independent comparator",
    text="On tables built by several inserts/deletes/compactions over 4 disk layouts (and memory), ordered results must be K-sorted permutations of the unordered result, ordered LIMIT/OFFSET must equal the slice on K, unordered LIMIT/OFFSET must have the right count and be a sub-multiset.",
    note="Reference comparator NULL-smallest; ties may permute (slices compared on key columns).", ref="6 C12"),
  "C13": dict(cat="exploration", tech="differential runtime monitoring: key-range scan vs model filter vs unoptimized run; storage-level RowSetIterator(range) vs filter(scan); thorough tier adds sanitizer overlays of the same workload (ASan), reports with risinglight frames are violations",
@@ -50,7 +50,7 @@ CHECKS = {
  "C11": dict(cat="exploration", tech="differential runtime monitoring of hand-built physical plans through executor::build + independent Python nested-loop/group-by reference",
    text="For the same inputs, nested-loop / hash / merge join of every join type, simple / hash / sort aggregation and limit-over-order vs top-N are executed by the real executor on tables with chosen chunking, NULL and duplicate keys, INT vs BIGINT keys, empty sides; all implementations must agree with each other and with the reference.",
    note="Plans are built through the public Expr enum; hash/merge join of inner/outer type only with a true residual (executor contract).", ref="6 C11"),
- "C14": dict(cat="exploration", tech="kernel-level runtime monitor against an independent scalar interpreter (arbitrary raw bits under NULL) + metamorphic row-isolation monitor over every array kernel (row in a batch vs the row alone) + optimizer on/off differential for constant folding + predicate leg vs a Python 3VL evaluator; thorough tier adds sanitizer overlays of the same workload (ASan + Miri), reports with risinglight frames are violations",
+ "C14": dict(cat="exploration", tech="kernel-level runtime monitor against an independent scalar interpreter (arbitrary raw bits under NULL) + metamorphic row-isolation monitor over every array kernel (row in a batch vs the row alone) + optimizer on/off differential for constant folding + predicate leg vs a Python 3VL evaluator + filter-position monitor (WHERE e / WHERE NOT e vs the projected value of e); thorough tier adds sanitizer overlays of the same workload (ASan + Miri), reports with risinglight frames are violations",
    text="Array kernels (arithmetic, comparison, AND/OR/NOT, ||, unary minus, CASE selection, integer casts) over all accepted operand type combinations on batches of 0..200 rows with NULL slots carrying arbitrary raw bits are judged row by row against a scalar SQL interpreter; overflow must be an error, x/0 NULL, a row alone must equal the row in its batch. Constant expressions: folded (optimizer on) vs run-time (off).",
    note="NaN/inf not used in comparisons of the scalar-interpreter leg. LIKE / SUBSTRING / EXTRACT / REPLACE / REPEAT / casts other than integer ones / vector distances are decided by the row-isolation leg only (batch-independence, not absolute semantics).", ref="6 C14"),
  "C19": dict(cat="exploration", tech="law-checking runtime monitor over value pools + cross-implementation coherence through SQL on both engines; thorough tier adds sanitizer overlays of the same workload (ASan + Miri), reports with risinglight frames are violations",
